@@ -26,7 +26,11 @@ TECHNIQUE = ("Lean 4 theorems about an executable model of the import transforms
 LEVEL_TEXT = ("Proof, for every cell text, category table, chunking and validation mode, that the modelled kernels compute the "
               "specified conversion without any out-of-range subscript: categorical_transform / leaky_categorical_transform over "
               "get_byte_map's packed table return the value of the unique key equal to the whole cell (free text and its offsets "
-              "accumulate correctly across any chunking), numeric_bool_transform accepts exactly the documented spellings "
+              "accumulate correctly across any chunking); a categorical column without free text holds, row by row, the value "
+              "listed for the key the cell equals, or the import raises ValueError because some cell equals no key - which of "
+              "the two depends on the cells only, not on the chunking (categorical_property, at full strength since fix NC06d; "
+              "categorical_transform's first_unmatched is the FIRST such row of the chunk: categorical_transform_checked, "
+              "first_unmatched_is_first); numeric_bool_transform accepts exactly the documented spellings "
               "(stated over the literal table regenerated from the source), the validation-mode table of transform_int/float, "
               "fixed_string_transform keeps the first N bytes, parse_timestamp_bytes yields the UTC POSIX time of every accepted "
               "layout including written offsets, and all companion columns stay as long as the main column. Composition with "
@@ -37,21 +41,25 @@ LEVEL_TEXT = ("Proof, for every cell text, category table, chunking and validati
               "companion field (read_csv_typed_eq_spec, typed_companions_aligned). The raising half of the property at the "
               "public entry point (read_csv_typed_raises): whenever some selected cell is rejected by its importer's validation "
               "mode (empty / unparseable numeric text in strict, unparseable in allow_empty, integer outside the dtype in every "
-              "mode, impossible date), read_csv_with_schema_dict raises, for every chunk_row_size of C05's regime, every window "
+              "mode, impossible date, text that is no category in a categorical column without free text), read_csv_with_schema_dict raises, for every chunk_row_size of C05's regime, every window "
               "boundary and every regrowth (typed_raise_chunk_size_unobservable: two chunk sizes both succeed with equal "
               "output or both raise); the error is what the importer raises (rejErr) on the first rejected cell - index_map "
               "order, then row order - of the first kernel block that holds one, and its class is Exception for bool, "
-              "OverflowError for an out-of-dtype integer, ValueError for empty / unparseable numeric text and for dates "
-              "(typed_reject_error_class).")
+              "OverflowError for an out-of-dtype integer, ValueError for empty / unparseable numeric text, for dates and for text "
+              "that is no category (typed_reject_error_class).")
 LEVEL_NOTE = ("Parameters, not theorems: the text-to-number parsers (Python int()/float(), numpy astype; validation_mode_table holds "
               "for every parser that rejects blank text) and datetime/timezone (CPython's _ymd2ord is mirrored and proved equal to "
               "plain day counting; int() on bytes is modelled executably and compared exhaustively on short texts). The timestamp "
               "theorem covers texts rendered with fixed-width decimals in the seven layouts; what parse_timestamp_bytes does with "
               "other texts (unchecked separators) is only compared, not specified. The model is validated against the real importers "
               "by the differential run, not verified against the Python text. Theorems are about the code with fixes D27 (C05), D28, "
-              "D29, NC06a, NC06b, NC06c, NC06e, NC06f applied. NC06d (text that is no category, in a categorical column without "
-              "free text, is stored as 0) is recorded as found: categorical_exact_match states the stored 0 outright, the "
-              "property-level statement is categorical_property_partial (every cell is a key), witness in Witness/C06.lean. "
+              "D29, NC06a, NC06b, NC06c, NC06d, NC06e, NC06f applied. NC06d (text that is no category, in a categorical column "
+              "without free text, was stored as 0) is repaired by fixes/NC06d_strict_categorical_rejects_unknown_text.patch: "
+              "the model carries both variants - categoricalTransformChecked / categoricalImportPart / "
+              "categoricalImportChecked mirror the repaired code (categorical_property), categoricalTransform / "
+              "categoricalImport the code as found (categorical_exact_match states the stored 0 outright, "
+              "categorical_property_partial, witness in Witness/C06.lean); the driver reports both, and the as-found answer is "
+              "accepted by the correspondence only while NC06d is listed open (then the oracle reports it under the finding). "
               "The composed theorem read_csv_typed_eq_spec requires every selected cell to be acceptable to its importer; for "
               "rejected cells (strict / allow_empty, out of range, impossible dates) read_csv_typed_raises lifts the "
               "importer-level statement (read_csv_typed_raises_partial, kept) through the driver loop: the invariant DI is "
@@ -63,10 +71,13 @@ LEVEL_NOTE = ("Parameters, not theorems: the text-to-number parsers (Python int(
               "code, and the reported column / cell text against the first rejected cell of the first block of the model's "
               "block trace, on a stratified family (every importer kind x validation mode x class of cell x every row "
               "position: first row of the file, last row of a kernel block, first row after a regrowth).")
-RULE = ("corpus (witnesses of D28, D29, NC06a-f) first; exhaustive: every byte string up to length 3 (quick) / 4 (thorough) over the "
+RULE = ("corpus (witnesses of D28, D29, NC06a-f; NC06d at importer level and at the public entry point) first; exhaustive: every byte string up to length 3 (quick) / 4 (thorough) over the "
         "bool literal alphabet {t,r,u,e,f,a,l,s,y,n,o,0,1,blank,x} plus all case variants of the accepted spellings, in the three "
         "modes; every subset (size <= 3) of the key pool {'', a, ab, b, ba, abc} against all pool members, strict prefixes/suffixes "
-        "and a stranger, for both categorical importers and four chunkings (whole, singletons, with empty chunks, uneven); fixed "
+        "and a stranger, for both categorical importers and four chunkings (whole, singletons, with empty chunks, uneven); a "
+        "categorical column without free text with ONE cell that is no category (stranger, empty, proper prefix / suffix of a key, "
+        "key plus a byte, other case, trailing / leading blank) in every row 0..5 x five chunkings (first row, last row of a chunk, "
+        "first row of a later chunk, after an empty chunk; measured: cat-unmatched:*), two such cells, '' listed as a key; fixed "
         "strings of length 0..4 against N = 1..3; every integer text of a 45-word grammar (blanks, signs, underscores, exponents, "
         "out of range, empty, garbage) x 3 modes x 8 integer dtypes; every timestamp layout x boundary dates x offsets; then seeded "
         "random columns (up to 40 rows, random chunkings with empty chunks, tables up to 600 key bytes, UTF-8 keys) and CSV-level "
@@ -77,7 +88,8 @@ RULE = ("corpus (witnesses of D28, D29, NC06a-f) first; exhaustive: every byte s
         "stratified and seed independent (c05.typed_reject_cases): a typed column beside a one-byte fixed-string column whose "
         "long cell in row 3 forces a value-buffer regrowth, the cell of class {empty, unparseable, out of dtype range, "
         "impossible date} in every row 0..5 in turn x {bool, int8, uint16, float64} x {strict, allow_empty, relaxed} and "
-        "datetime / date x chunk_row_size {smallest, +1, (+3), one window}, plus two-column files with two rejected cells "
+        "datetime / date, and the cell of class {unknown, empty, prefix, extension, case, trailing blank} of a categorical "
+        "column without free text, x chunk_row_size {smallest, +1, (+3), one window}, plus two-column files with two rejected cells "
         "of different exception classes in both column orders; measured strata in the distribution (reject-stratum:*). Non-trivial = at least two chunks or an unmatched/invalid/truncated cell; distinct "
         "= distinct case dict.")
 ASSUMPTIONS = ["Python int()/float(), numpy astype(str->number) and datetime/timezone arithmetic are parameters of the theorems "
@@ -172,6 +184,26 @@ def resolve_invalid(case):
 
 def rstrip_nul(b):
     return b.rstrip(b"\x00")
+
+
+_OPEN = {}
+
+
+def nc06d_open():
+    """is finding NC06d (a categorical column without free text stores 0 for a cell that is no category) still listed open?
+    While it is, an implementation that answers like the AS-FOUND variant of the model (reported under `asfound`) is not a
+    model/implementation disagreement: the property oracle reports it under the finding. Once the entry is `fixed`, the
+    as-found answer is a disagreement and a violation."""
+    if "NC06d" not in _OPEN:
+        from checks import lib
+        _OPEN["NC06d"] = any(f["id"] == "NC06d" and f["status"] == "open" for f in lib.load_findings(PROPERTY))
+    return _OPEN["NC06d"]
+
+
+def unmatched_cells(col, cells):
+    """the cells of a categorical column (bytes) that equal no category key, in row order"""
+    table = {unhx(c["k"]) for c in col["cats"]}
+    return [c for c in cells if c not in table]
 
 
 def col_to_model(case, chunks=None):
@@ -302,7 +334,41 @@ DATE_TEXTS = [b"2020-06-15", b"1970-01-01", b"1969-12-31", b"2000-02-29", b"1900
               b"2020-06-15x", b"20200-01-01", b"0000-01-01", b"2020-06-00", b"2020-00-10", b"2020-06-32", b"2020/06/15", b"15-06-2020",
               b"2020-06", b"2020-06-1", b"2020-10-9", b"2020-06-39", b"202-06-15", b"2020-06-15 00:00:00"]
 KEY_POOL = [b"", b"a", b"ab", b"b", b"ba", b"abc"]
-CAT_CELLS = KEY_POOL + [b"c", b"abcd", b"bc", b"A", b" a"]
+CAT_CELLS = KEY_POOL + [b"c", b"abcd", b"bc", b"A", b" a", b"a ", b"aB"]
+# a categorical column WITHOUT free text and a cell that is no category (fix NC06d: the import raises ValueError naming the
+# first such cell of the first chunk that holds one): the odd cell's relation to the keys x its row x the chunking
+CAT_ODD = {"stranger": b"maybe", "empty": b"", "prefix-of-key": b"ye", "key-is-prefix": b"yess", "case": b"Yes",
+           "trailing-blank": b"yes ", "leading-blank": b" no", "suffix-of-key": b"es"}
+
+
+def cat_reject_cases(n0):
+    cases, n = [], n0
+    good = [b"yes", b"no", b"no", b"yes", b"yes", b"no"]
+    tables = [{b"no": 0, b"yes": 1}, {b"yes": 7, b"no": 3, b"n": 5}]
+    for what, odd in CAT_ODD.items():
+        for pos in range(len(good)):
+            for sizes in ([6], [3, 3], [1] * 6, [2, 0, 4], [0, 5, 1]):
+                for ti, d in enumerate(tables):
+                    if ti == 1 and (pos + len(sizes)) % 3:
+                        continue
+                    cells = list(good)
+                    cells[pos] = odd
+                    n += 1
+                    cases.append(mkcol("categorical", cells, sizes, n, cats=cats_of(d), vtype="int8", _odd=[what, pos]))
+        # two odd cells: the one in the earlier row is named, whatever the chunking; and the same column with free text allowed
+        for sizes in ([6], [3, 3], [1] * 6):
+            cells = list(good)
+            cells[1], cells[4] = odd, b"other"
+            n += 1
+            cases.append(mkcol("categorical", cells, sizes, n, cats=cats_of(tables[0]), vtype="int8", _odd=[what, 1]))
+            n += 1
+            cases.append(mkcol("leaky", cells, sizes, n, cats=cats_of(tables[0]), vtype="int8"))
+    # '' listed as a category: an empty cell is that category
+    for sizes in ([6], [2, 4]):
+        n += 1
+        cases.append(mkcol("categorical", [b"yes", b"", b"no", b"", b"", b"yes"], sizes, n,
+                           cats=cats_of({b"": 4, b"no": 0, b"yes": 1}), vtype="int8"))
+    return cases
 
 
 def exhaustive(tier):
@@ -339,6 +405,9 @@ def exhaustive(tier):
                 for sizes in chunkings(len(CAT_CELLS)):
                     n += 1
                     cases.append(mkcol(kind, CAT_CELLS, sizes, n, cats=cats_of(d), vtype="int8"))
+    cat = cat_reject_cases(n)
+    cases.extend(cat)
+    n += len(cat)
     # --- fixed strings ---------------------------------------------------------------------------------------------
     fcells = [b"", b"a", b"ab", b"abc", b"abcd", b"\xc3\xa9\xc3\xa9", b" x ", b"\xff"]
     for strlen in (1, 2, 3, 5):
@@ -591,7 +660,7 @@ def gen_cases(tier, rng):
     # that are no category (NC06d)
     from checks.harness import c05
     cases.extend(c05.typed_regrowth_cases())
-    cases.extend(c05.typed_reject_cases(tier == "quick"))
+    cases.extend(c05.typed_reject_cases(tier == "quick", categorical=True))
     cases.extend(c05.typed_cases(rng, 160 if tier == "quick" else 4000, allow_unmatched=True))
     return cases
 
@@ -877,6 +946,8 @@ def col_spec(col, cells, io):
     if kind in ("categorical", "leaky"):
         table = {unhx(c["k"]): c["v"] for c in col["cats"]}
         if "err" in io:
+            if kind == "categorical" and any(c not in table for c in cells):
+                return None          # no free text allowed and a cell that is no category: there is no value to store
             return f"raised {io['err']} ({io.get('msg', '')}) instead of importing the categorical column"
         data = io["data"]
         if len(data) != len(cells):
@@ -1052,10 +1123,12 @@ def compare(case, io, mo, mode):
     if case["op"] == "c06_parse_int":
         return None if io.get("v") == mo.get("ok") else f"int() impl={io.get('v')} model={mo.get('ok')}"
     if case["op"] == "c06_col":
-        if "err" in io:
-            a, b = norm_err(io["err"]), norm_err(mo.get("err", "<value>"))
-            return None if a == b else f"impl err={a} ({io.get('msg', '')}) model err={b}"
-        return cmp_col(case, io, mo)
+        why = cmp_one(case, io, mo)
+        if why and as_found_ok(case, [unhx(x) for ch in case["chunks"] for x in ch], mo) and cmp_one(case, io, mo["asfound"]) is None:
+            return None          # the code as found (NC06d, listed open): check_spec reports it under the finding
+        if why is None and "err" in io and case["kind"] == "categorical":
+            why = cat_message(case, io, case["chunks"])
+        return why
     outs = mo.get("ok")
     if outs is None:
         return f"model: {mo}"
@@ -1064,8 +1137,46 @@ def compare(case, io, mo, mode):
         return None if norm_err(io["err"]) in errs else f"impl err={io['err']} ({io.get('msg', '')}) model column errs={sorted(errs)}"
     for c, o, m in zip(case["cols"], io["cols"], outs):
         why = cmp_col(c, o, m)
+        if why and as_found_ok(c, [unhx(x) for x in c["cells"]], m) and cmp_col(c, o, m["asfound"]) is None:
+            continue
         if why:
             return f"column {c['name']} ({c['kind']}): {why}"
+    return None
+
+
+def cmp_one(case, io, mo):
+    if "err" in io:
+        a, b = norm_err(io["err"]), norm_err(mo.get("err", "<value>"))
+        return None if a == b else f"impl err={a} ({io.get('msg', '')}) model err={b}"
+    return cmp_col(case, io, mo)
+
+
+def as_found_ok(col, cells, mo):
+    """may this column be answered like the as-found variant of the model? Only a categorical column without free text that
+    holds a cell which is no category, and only while NC06d is listed open"""
+    return (col["kind"] == "categorical" and isinstance(mo, dict) and isinstance(mo.get("asfound"), dict)
+            and nc06d_open() and bool(unmatched_cells(col, cells)))
+
+
+CAT_MSG = re.compile(r"^Field '(.*?)': '(.*)' \(row (\d+)\) is not one of the categories", re.S)
+
+
+def cat_message(col, io, chunks):
+    """fix NC06d, what the ValueError of CategoricalImporter.import_part names: the first cell that is no category of the
+    first chunk that holds one (categorical_transform's first_unmatched), its text and its row number in the whole column"""
+    m = CAT_MSG.match(io.get("msg", ""))
+    if io.get("err") != "value_error" or not m:
+        return None
+    table = {unhx(c["k"]) for c in col["cats"]}
+    row = 0
+    for ch in chunks:
+        for x in ch:
+            if unhx(x) not in table:
+                want = unhx(x).decode("utf-8", "replace")
+                if m.group(2) != want or int(m.group(3)) != row:
+                    return f"the ValueError names {m.group(2)!r} (row {m.group(3)}), the first cell that is no category is {want!r} (row {row})"
+                return None
+            row += 1
     return None
 
 
@@ -1098,6 +1209,28 @@ def classify(case, mo):
         tags.append("keys>255B")
     if mo and "err" in mo:
         tags.append("model-err:" + mo["err"])
+    if case["kind"] == "categorical":
+        # where the first cell that is no category sits: measured strata of fix NC06d
+        table = {unhx(c["k"]) for c in case["cats"]}
+        row, first = 0, None
+        for ci, ch in enumerate(case["chunks"]):
+            for ri, x in enumerate(ch):
+                if first is None and unhx(x) not in table:
+                    first = (ci, ri, len(ch), row)
+                row += 1
+        if first is not None:
+            ci, ri, ln, r = first
+            tags.append("cat-unmatched")
+            if r == 0:
+                tags.append("cat-unmatched:first-row")
+            if ri == ln - 1 and ln >= 2:
+                tags.append("cat-unmatched:last-row-of-chunk")
+            if ri == 0 and ci > 0 and r > 0:
+                tags.append("cat-unmatched:first-row-of-later-chunk")
+            if r == row - 1:
+                tags.append("cat-unmatched:last-row")
+            if case.get("_odd"):
+                tags.append("cat-unmatched:" + case["_odd"][0])
     return tags
 
 
